@@ -155,6 +155,15 @@ func contains(xs []string, s string) bool {
 	return false
 }
 
+func reachTagged(c *FuncContract, prop string) bool {
+	for _, rc := range c.Reach {
+		if contains(rc.Clause.Tags, prop) {
+			return true
+		}
+	}
+	return false
+}
+
 func clauseTagged(c *FuncContract, prop string) bool {
 	if contains(c.NPTags, prop) {
 		return true
@@ -231,7 +240,9 @@ func cmdCheck(writeBaseline bool, argv []string) int {
 			continue
 		}
 		for _, c := range cf.Funcs {
-			if c.Trusted || !clauseTagged(c, prop) {
+			// a trusted summary may still carry gates: they are verified on the
+			// body (the postconditions stay assumed)
+			if (c.Trusted && !reachTagged(c, prop)) || !clauseTagged(c, prop) {
 				continue
 			}
 			full := w.fullFuncName(cf.PkgPath, c.Key)
@@ -355,7 +366,14 @@ func cmdCheck(writeBaseline bool, argv []string) int {
 	var deadAccepted []string
 	for _, o := range covers {
 		if o.Status == "unsat" {
-			if acceptedDead[o.ID] {
+			isDead := acceptedDead[o.ID]
+			for _, d := range dead {
+				// multi-line statements: the entry may give the first line only
+				if !isDead && strings.HasSuffix(d.ID, "{") && strings.HasPrefix(o.ID, d.ID) {
+					isDead = true
+				}
+			}
+			if isDead {
 				deadAccepted = append(deadAccepted, o.ID)
 			} else {
 				vacuous = append(vacuous, o.ID)
@@ -505,6 +523,11 @@ func cmdCheck(writeBaseline bool, argv []string) int {
 			continue
 		}
 		fk := o.Func + "#" + o.Kind
+		if _, isKnown := known[o.ID]; isKnown {
+			// a listed open finding: reported on every run (KNOWN-FINDING line)
+			viols = append(viols, viol{o, o.ID, o.Status})
+			continue
+		}
 		if notClaimedAtBaseline[o.ID] {
 			// already undischarged when the baseline was taken: not a regression
 			continue
